@@ -111,6 +111,22 @@ pub fn name_agreement(case: &str, xot: &Xot, root: Node, out: &mut Out, stats: &
             Ok(parsed) => if parsed != owned || parsed.prefix() != owned.prefix() || parsed.local_name() != local { bad("parse_full_name", format!("{:?} from {:?}, expected {:?}", parsed, rn.full_name(), owned)); },
             Err(e) => bad("parse_full_name", format!("{:?} for {:?}", e, rn.full_name())),
         }
+        // the conversions that may register: on a copy of the Xot, where everything is registered already, they must find the same ids
+        {
+            let mut x2 = xot.clone();
+            let ids = { let r2 = owned.to_ref(&mut x2); (r2.name_id(), r2.prefix_id(), r2.namespace_id()) };
+            if ids != (name, rn.prefix_id(), ns_id) { bad("to_ref", "another name, prefix or namespace id".into()); }
+            if owned.to_create(&mut x2).name_id() != name { bad("to_create", "another name id".into()); }
+            let full = rn.full_name().to_string();
+            match xot::xmlname::CreateName::parse_full_name(&mut x2, &full, |p| if p == p0 { Some(ns_id) } else { None }) {
+                Ok(c) => if c.name_id() != name { bad("CreateName::parse_full_name", format!("{:?} gives another name id", full)); },
+                Err(e) => bad("CreateName::parse_full_name", format!("{:?} for {:?}", e, full)),
+            }
+            let cn = xot::xmlname::CreateNamespace::new(&mut x2, rn.prefix(), ns);
+            if cn.prefix_id() != rn.prefix_id() || cn.namespace_id() != ns_id { bad("CreateNamespace::new", "another prefix or namespace id".into()); }
+            if xot::xmlname::CreateName::namespaced(&mut x2, local, &cn).name_id() != name { bad("CreateName::namespaced", "another name id".into()); }
+            if ns.is_empty() && xot::xmlname::CreateName::name(&mut x2, local).name_id() != name { bad("CreateName::name", "another name id".into()); }
+        }
         let sfx = owned.clone().with_suffix();
         if sfx.local_name() != format!("{}*", local) || sfx.namespace() != ns || sfx.prefix() != owned.prefix() { bad("with_suffix", format!("{:?}", sfx)); }
         let dn = owned.clone().with_default_namespace("urn:dflt");
